@@ -21,6 +21,22 @@ CHECKS = {
          "Generated-input search; the oracle implements the statement literally (objective, every active+removed constraint once with metadata, both feasibility flags, completed state, rejections); flags are only asserted outside the rounding margin around 1e-6.",
          "Trusts the reference evaluator in harness/src/model.rs and num-rational; states do not assign dependent variables.",
          "DESIGN.md §5 C05"),
+ "C06": ("proptest-driven generation of instances x Samples groupings (shared entries, duplicate states, colliding values, omitted irrelevant variables) with a differential oracle against single-sample evaluation and a re-grouping metamorphic relation",
+         "Generated-input search: every extracted sample must equal the single evaluation of its state (objective, constraints with metadata, both flags, state, variables), tables keyed by exactly the submitted ids, invariant under re-grouping.",
+         "Single-sample evaluation is the reference (tied to the independent model by C05); states in-bound; sample ids distinct.",
+         "DESIGN.md §5 C06"),
+ "C09": ("proptest-driven generation of instances x {penalty_method, uniform_penalty_method} x weights vs exact polynomial f + sum w g^2 in the joint variables and a bookkeeping model",
+         "Generated-input search with an exact-rational oracle for the parametric objective (coefficient-wise in (x, w), also after instantiating the weights) and a model of which constraints/parameters/fields must be present.",
+         "Trusts exact.rs; variable ids below u64::MAX-8.",
+         "DESIGN.md §5 C09"),
+ "C10": ("proptest-driven generation of parametric instances x parameter assignments (complete, extras, missing) vs exact partial evaluation at p; instance->parametric->instance round trip",
+         "Generated-input search: objective and every active constraint compared coefficient-wise with the exact partial evaluation, all other fields unchanged, parameters recorded, missing parameter rejected.",
+         "Trusts exact.rs.",
+         "DESIGN.md §5 C10"),
+ "C14": ("model-based stateful testing: generated relax/restore/evaluate histories interpreted against a two-map model with invariants checked after every step",
+         "Generated operation sequences (<=8 quick, <=20 thorough) with ids from active/removed/unknown; Ok/Err, unchanged-on-error, constraint collection, list membership, reasons, per-state values and feasibility invariance checked after every step.",
+         "Trusts the model in props/c14.rs and the reference evaluator.",
+         "DESIGN.md §5 C14"),
  "C01": ("proptest-driven choice-tape generation of function messages in every representation vs exact-rational oracle (bit-exact in dyadic regime, rigorous rounding bound otherwise)",
          "Generated-input search: every oneof state and wire-legal representation of functions up to degree 4, total and one-missing states, typed and sample-set entry points, compared against an exact BigRational evaluation of the raw message fields; no absence proof.",
          "Trusts num-bigint/num-rational, proptest's runner (search only) and the harness's raw-field reader; coefficient/value magnitudes bounded away from f64 overflow.",
